@@ -47,23 +47,28 @@ def discharge_paths(rep, scen, fn_label, body, post, pre, native=None):
         if kind == "exc":
             r = {"status": "refuted", "backend": "symex", "time_s": 0.0, "model": _model_of(ctx.pc)}
             rep.obligation(f"{tag}.no-exception-on-valid-input[{type(res).__name__}]", r, fn_label, "safety")
-            failures.append((f"{tag}.no-exception-on-valid-input", r, f"{type(res).__name__}: {res}"))
+            failures.append((f"{tag}.no-exception-on-valid-input", _slim(r), f"{type(res).__name__}: {res}"))
             continue
         for label, goal in post(ctx, res):
             r = solve.discharge(ctx.pc, goal)
             rep.obligation(f"{tag}.post.{label}", r, fn_label, "post",
                            sample=solve.sample_smt2(ctx.pc, goal) if npaths == 1 and label in ("spec", "len") else None)
             if r["status"] == "refuted":
-                failures.append((f"{tag}.post.{label}", r, "postcondition refuted"))
+                failures.append((f"{tag}.post.{label}", _slim(r), "postcondition refuted"))
         for i, (pc, _ax, f, label, kd) in enumerate(ctx.oblig):
             r = solve.discharge(pc, f)
             rep.obligation(f"{tag}.safety{i}.{label.split(':')[0].split('(')[0].strip().replace(' ', '_')}", r, fn_label, kd)
             if r["status"] == "refuted":
-                failures.append((f"{tag}.safety{i}.{label}", r, "safety obligation refuted"))
+                failures.append((f"{tag}.safety{i}.{label}", _slim(r), "safety obligation refuted"))
     rep.paths += npaths
     if npaths == 0:
         raise RuntimeError(f"vacuity: no feasible path in scenario {scen}")
     return failures
+
+
+def _slim(r):
+    """picklable summary of a solver result"""
+    return {"status": r["status"], "backend": r.get("backend"), "hint": model_ints(r.get("model")), "model_str": str(r.get("model"))[:3000]}
 
 
 def _model_of(pc):
@@ -165,11 +170,13 @@ def scen_move(rep, via):
     return fails
 
 
-def scen_rotate(rep, via, tier):
+def scen_rotate(rep, via, tier, only=None):
     fails = []
     anchors = ("none", "zero", "s", "v")
     for rk, ak, auto, par in itertools.product("sv", anchors, (True, False), (False, True)):
         if par and (ak != "none" or via != "apply"):
+            continue
+        if only and (rk, ak) != only:
             continue
         ns = PathNS()
 
@@ -418,7 +425,7 @@ def scen_rejected(rep):
                 rep.obligation(lab + ".raises-input-error-and-object-untouched", r,
                                "magpylib._src.obj_classes.class_BaseTransform/class_BaseGeo (exceptional postcondition)", "exceptional")
                 if not ok:
-                    fails.append((lab, r, f"{what}: {exc!r}; unchanged={unchanged}", dict(op="rejected", name=name)))
+                    fails.append((lab, _slim(r), f"{what}: {exc!r}; unchanged={unchanged}", dict(op="rejected", name=name)))
     return fails
 
 
@@ -535,16 +542,16 @@ def report_failures(rep, fails):
         if key in done:
             continue
         done.add(key)
-        hint = model_ints(r.get("model"))
+        hint = r.get("hint") or {}
         found = []
         if sc and sc.get("op") in ("move", "rotate", "setpos", "setori"):
             found, _ = native_sweep(sc, bound=3, hint=hint)
         if found:
             p, msg = found[0]
-            rep.violation(name, {"why": why, "scenario": sc, "input": p, "native_result": msg, "solver_model": str(r.get("model")),
+            rep.violation(name, {"why": why, "scenario": sc, "input": p, "native_result": msg, "solver_model": r.get("model_str"),
                                  "script": REPLAY_TMPL.format(sc=json.dumps(sc), p=json.dumps(p))})
         else:
-            rep.violation(name, {"why": why, "scenario": sc, "solver_output": str(r.get("model")),
+            rep.violation(name, {"why": why, "scenario": sc, "solver_output": r.get("model_str"),
                                  "note": "obligation discharged on the unchanged tree, refuted now"}, found_input=False)
 
 
@@ -590,18 +597,18 @@ def main(tier, seed):
     rep.assume("rotate_from_* parametrisations: see C09 wrappers scenario (R.from_* constructors are scipy's, assumed)")
     rep.explanation = ("real code objects executed over index-map arrays of symbolic length; spec at a fresh symbolic index; "
                        "all lengths, all starts; plus exceptional postconditions by fault injection at every validator call")
-    fails = []
-    fails += scen_padding_param(rep)
-    fails += scen_move(rep, "apply")
-    fails += scen_move(rep, "method")
-    fails += scen_rotate(rep, "apply", tier)
-    fails += scen_rotate(rep, "method", tier)
-    fails += scen_pad_slice(rep)
-    fails += scen_setters(rep)
-    fails += scen_rejected(rep)
     from checks import c09_wrappers
+    from engine.par import run_parallel
 
-    fails += c09_wrappers.run(rep, tier)
+    tasks = [("padding_param", scen_padding_param), ("move.apply", lambda r: scen_move(r, "apply")),
+             ("move.method", lambda r: scen_move(r, "method"))]
+    for rk in "sv":
+        for ak in ("none", "zero", "s", "v"):
+            tasks.append((f"rotate.apply.{rk}.{ak}", lambda r, rk=rk, ak=ak: scen_rotate(r, "apply", tier, only=(rk, ak))))
+            tasks.append((f"rotate.method.{rk}.{ak}", lambda r, rk=rk, ak=ak: scen_rotate(r, "method", tier, only=(rk, ak))))
+    tasks += [("pad_slice", scen_pad_slice), ("setters", scen_setters), ("rejected", scen_rejected),
+              ("wrappers", lambda r: c09_wrappers.run(r, tier))]
+    fails = run_parallel(rep, tasks)
     report_failures(rep, fails)
     if not rep.violations:
         standin(rep, tier)
